@@ -18,7 +18,7 @@ ID = "C11"
 ENV = {"NUMBA_BOUNDSCHECK": "1"}
 RULE = (
     "cases = pairs (and trees of 3..8) of spherical/diffuse droplets in d=1..3 with radii "
-    "log-uniform over 1e-3..1e3 (one operand may have radius exactly 0), positions N(0,s) with s "
+    "log-uniform over 1e-3..1e3 (10 %: 1e-9..1e-3; one operand may have radius exactly 0), positions N(0,s) with s "
     "over 1e-2..1e2 plus offsets, widths incl. unset; each pair is merged out-of-place, in-place, "
     "through Class._merge_data and through a numba-compiled caller, the operands being obtained through "
     "a random route (constructor, copy, pickle round trip, deepcopy, from_data, emulsion member, linked data); trees are merged under two "
@@ -56,6 +56,8 @@ def _drop(rng, dim, cls, *, zero=False):
     off = float(rng.choice([0.0, 0.0, 1e3, -50.0]))
     pos = [float(x) for x in rng.normal(off, s, dim)]
     R = 0.0 if zero else float(10 ** rng.uniform(-3, 3))
+    if not zero and rng.random() < 0.1:
+        R = float(10 ** rng.uniform(-9, -3))  # tiny droplets (e.g. micrometres expressed in metres)
     w = None
     if cls == "DiffuseDroplet":
         w = None if rng.random() < 0.2 else float(10 ** rng.uniform(-2, 1))
